@@ -376,7 +376,10 @@ def _add_axis_to_metadata(fn, axis_pos, axis_name, axis_col='params_axes'):
     if names is None:
       return names
     names = list(names)
-    names.insert(axis_pos, axis_name)
+    # a negative position refers to the new names (the array already has the
+    # extra axis); list.insert would count from the end of the old ones.
+    pos = axis_pos + len(names) + 1 if axis_pos < 0 else axis_pos
+    names.insert(pos, axis_name)
     return tuple(names)
 
   def insert_fn(x):
